@@ -324,8 +324,9 @@ def edge_relation(fn, b, s):
     return {"truth": truth, "desc": d}
 
 
-def guards(fn, bb):
-    """all edge relations that hold whenever bb executes (transitive control dependences)"""
+def may_guards(fn, bb):
+    """edge relations of every (transitive) control dependence of bb: each holds on SOME path to bb
+    (a disjunction `a || b` contributes both a and !a&&b)"""
     out = []
     for (b, s) in fn.ctrl_closure(bb):
         r = edge_relation(fn, b, s)
@@ -333,6 +334,62 @@ def guards(fn, bb):
             r = dict(r)
             r["at"] = (b, s)
             out.append(r)
+    return out
+
+
+def reachable_without_edges(fn, target, edges):
+    """is `target` reachable from the entry when all the given CFG edges are removed?"""
+    edges = set(edges)
+    seen = {0}
+    stack = [0]
+    while stack:
+        x = stack.pop()
+        if x == target:
+            return True
+        for s in fn.succ[x]:
+            if (x, s) in edges or s in seen:
+                continue
+            seen.add(s)
+            stack.append(s)
+    return target in seen
+
+
+def _reachable_without_edge(fn, target, edge):
+    seen = {0}
+    stack = [0]
+    while stack:
+        x = stack.pop()
+        if x == target:
+            return True
+        for s in fn.succ[x]:
+            if (x, s) == edge or s in seen:
+                continue
+            seen.add(s)
+            stack.append(s)
+    return target in seen
+
+
+def guards(fn, bb):
+    """edge relations that hold on EVERY path from the function entry to bb: switch edges (b, s) such
+    that bb is unreachable once the edge is removed (edge dominance). Sound for 'is guarded by'."""
+    cache = fn.__dict__.setdefault("_must_guards", {})
+    if bb in cache:
+        return cache[bb]
+    out = []
+    for b in fn.dom.get(bb, ()):
+        if len(fn.succ[b]) < 2:
+            continue
+        for s in fn.succ[b]:
+            if bb != s and bb not in fn.reach(s):
+                continue
+            if _reachable_without_edge(fn, bb, (b, s)):
+                continue
+            r = edge_relation(fn, b, s)
+            if r is not None:
+                r = dict(r)
+                r["at"] = (b, s)
+                out.append(r)
+    cache[bb] = out
     return out
 
 
